@@ -86,6 +86,12 @@ def gen_model(rng, name="M", size=None, want=None):
         feats.add("string-parameter")
         if rng.random() < 0.3:
             decl.append('parameter String s1;')
+    vecpar = []
+    if "vector-parameter" in want:
+        k = rng.randint(2, 3)
+        decl.append("parameter Real pv0[%d] = {%s};" % (k, ", ".join(_num(rng) for _ in range(k))))
+        vecpar = ["pv0[%d]" % (i + 1) for i in range(k)]
+        feats.add("vector-parameter")
     consts = []
     if rng.random() < 0.5:
         decl.append("constant Real c0 = %s;" % _num(rng))
@@ -150,7 +156,7 @@ def gen_model(rng, name="M", size=None, want=None):
             arrays.append((n, k))
             feats.add("array")
 
-    known = states + inputs + preal_all + consts  # symbols an algebraic rhs may use
+    known = states + inputs + preal_all + consts + vecpar  # symbols an algebraic rhs may use
 
     def lin(pool, nterms=None):
         ts = []
